@@ -127,3 +127,29 @@ def within_limits(obj, prefix_limit):
     if isinstance(obj, bytes):
         return len(obj) <= SIZE_LIMIT
     return isinstance(obj, float)
+
+
+def token_ends(wire):
+    """Reference tokenizer (no limits applied): the stream offsets at which a complete element ends - a prefix plus its
+    type byte (list headers, integers, vocabulary indices), a string with all its bytes, a float with its 8 bytes.  It
+    stops at the first element the stream does not complete; every offset that is not returned (and not 0) lies inside
+    an element."""
+    out = []
+    pos, n = 0, len(wire)
+    while pos < n:
+        p = pos
+        while p < n and wire[p] < 0x80:
+            p += 1
+        if p == n:
+            break
+        t = wire[p:p + 1]
+        p += 1
+        if t == STRING:
+            p += sum(d << (7 * i) for i, d in enumerate(wire[pos:p - 1]))
+        elif t == FLOAT:
+            p += 8
+        if p > n:
+            break
+        out.append(p)
+        pos = p
+    return out
